@@ -7,7 +7,7 @@ package locate
 //
 //   - a mocktikv.Cluster with 3–5 stores whose topology is changed by the
 //     harness (split / merge / leader transfer / add-remove peer / store
-//     stop-start); epochs are fixed up to TiKV's rules (both halves of a split
+//     stop-start); epochs are held to TiKV's rules (both halves of a split
 //     get parent.version+1, a merge gets max+1) because the statement's
 //     "older / newer" is defined by them;
 //   - a PD interposer that answers every region query (GetRegion /
@@ -253,10 +253,10 @@ func c09CloneRegion(r *router.Region) *router.Region {
 // ---------------------------------------------------------------- world
 
 type c09World struct {
-	r    *vrep.Report
-	desc string // scenario descriptor (test, index, seed)
-	txn  bool
-	cdc  apicodec.Codec
+	r     *vrep.Report
+	desc  string // scenario descriptor (test, index, seed)
+	txn   bool
+	cdc   apicodec.Codec
 	keys  [][]byte // lookup key universe (sorted, keys[0] = "")
 	cands []string // candidate region boundaries
 
@@ -277,7 +277,7 @@ type c09World struct {
 	pdRng    *rand.Rand
 	pStale   float64
 	pGap     float64 // a scan answer lacks one region (a freshly split region that has not reported to PD yet)
-	noBatch  bool // BatchScanRegions answers Unimplemented (fallback path)
+	noBatch  bool    // BatchScanRegions answers Unimplemented (fallback path)
 	oplog    []string
 	layouts  map[string]struct{}
 
@@ -455,7 +455,8 @@ func (w *c09World) change(rng *rand.Rand, kind int) string {
 		ep := c.r.Meta.RegionEpoch
 		w.cluster.SplitRaw(c.r.Meta.Id, newID, w.enc([]byte(c.k)), peerIDs, peerIDs[li])
 		// TiKV: both halves carry parent.version+1 and the parent's conf_ver
-		// (mocktikv starts the new region at version 1 / conf_ver 0).
+		// (older mocktikv started the new region at version 1 / conf_ver 0;
+		// where it already follows the rule this is a no-op).
 		w.setEpoch(c.r.Meta.Id, ep.GetConfVer(), ep.GetVersion()+1)
 		w.setEpoch(newID, ep.GetConfVer(), ep.GetVersion()+1)
 		desc = fmt.Sprintf("split r%d at %s -> new r%d", c.r.Meta.Id, c.k, newID)
